@@ -115,6 +115,9 @@ pub enum Strategy {
     Straggler,
     /// answer monorail at once; the releasable helpers take one step each, in turn
     RoundRobin,
+    /// answer monorail at once; every helper first writes all its output (in turn); then the helpers
+    /// scripted to fail exit, while the others are still running; then the rest
+    OutputThenFailures,
 }
 
 #[derive(Serialize, Deserialize, Clone, Debug, PartialEq)]
@@ -263,6 +266,8 @@ pub struct RunTrace {
     pub real_pause_ms: u64,
     /// what every helper had written (acknowledged) when the first failing exit was about to be issued
     pub written_at_first_failure: Option<Vec<[Vec<u8>; 3]>>,
+    /// spawn requests that were released but never produced a child (the spawn failed inside monorail)
+    pub spawn_without_child: Vec<(String, String)>,
 }
 impl RunTrace {
     pub fn result_json(&self) -> Option<serde_json::Value> {
@@ -491,6 +496,25 @@ pub fn drive_run_l(w: &mut World, actor: &str, sc: &RunScript, hang: Duration, l
                     Opt::H(next)
                 }
             }
+            Strategy::OutputThenFailures => {
+                if opts.contains(&Opt::MGo) {
+                    Opt::MGo
+                } else if opts.contains(&Opt::MWait) {
+                    Opt::MWait
+                } else {
+                    let with_output: Vec<usize> = hs.iter().cloned().filter(|h| !tr.helpers[*h].script.is_empty()).collect();
+                    let failing: Vec<usize> = hs.iter().cloned().filter(|h| sc.behav_for(&tr.helpers[*h].command, &tr.helpers[*h].target).map(|b| b.code != 0).unwrap_or(false)).collect();
+                    if !with_output.is_empty() {
+                        let next = with_output.iter().cloned().filter(|h| rr_last.map(|l| *h > l).unwrap_or(true)).min().unwrap_or(with_output[0]);
+                        rr_last = Some(next);
+                        Opt::H(next)
+                    } else if !failing.is_empty() {
+                        Opt::H(failing[0])
+                    } else {
+                        Opt::H(hs[0])
+                    }
+                }
+            }
             Strategy::Uniform => opts[rng.below(opts.len())],
             Strategy::HoldM => {
                 let others: Vec<Opt> = opts.iter().cloned().filter(|o| *o != Opt::MGo).collect();
@@ -546,7 +570,20 @@ pub fn drive_run_l(w: &mut World, actor: &str, sc: &RunScript, hang: Duration, l
                 tr.log.push(format!("m-go {}", p.name));
                 if let Some((sseq, c, t)) = pending_spawn.take() {
                     // the helper this spawn creates must report before anything else is decided
-                    let ev = ctl.wait_for(|e| matches!(e, Ev::Hello(_)) || matches!(e, Ev::Exit(x) if x.proc_id == proc_id), hang);
+                    let mut ev = ctl.wait_for(|e| matches!(e, Ev::Hello(_)) || matches!(e, Ev::Exit(x) if x.proc_id == proc_id) || matches!(e, Ev::Point(p) if p.actor == actor), hang);
+                    if let Some(Ev::Point(p)) = ev {
+                        // monorail went on to its next point. Either the child is merely slow to report, or the
+                        // spawn failed inside monorail (an executable that cannot be exec'd) and monorail carried
+                        // on: give the child two more seconds, then conclude that it was never started.
+                        let arrival = ctl.seq;
+                        ev = ctl.wait_for(|e| matches!(e, Ev::Hello(_)), Duration::from_secs(2));
+                        ctl.unget(arrival, Ev::Point(p));
+                        if ev.is_none() {
+                            tr.log.push(format!("spawn-without-child {} {}", c, t));
+                            tr.spawn_without_child.push((c.clone(), t.clone()));
+                            continue 'outer;
+                        }
+                    }
                     match ev {
                         Some(Ev::Hello(h)) => {
                             let seq = ctl.seq;
